@@ -21,7 +21,7 @@ FAMILY = {"ULC": "ulc", "NTAG203": "n203"}
 for _p, _d in PRODUCTS.items():
     if _d["fam"] in ("ntag", "ev1"):
         FAMILY[_p] = _d["fam"]
-CLASSES = ["slock", "cc", "u4", "u5", "dlock", "cfg0", "cfg1", "pwd", "pack", "a0", "a1", "k1", "k2", "k3", "k4"]
+CLASSES = ["slock", "cc", "u4", "u5", "tend", "dlock", "cfg0", "cfg1", "pwd", "pack", "a0", "a1", "k1", "k2", "k3", "k4"]
 WANT = {"ULC": "MifareUltralightC", "NTAG203": "NTAG203", "NTAG210": "NTAG210", "NTAG212": "NTAG212", "NTAG213": "NTAG213",
         "NTAG215": "NTAG215", "NTAG216": "NTAG216", "MF0UL11": "MF0UL11", "MF0ULH11": "MF0ULH11", "MF0UL21": "MF0UL21",
         "MF0ULH21": "MF0ULH21"}
@@ -45,7 +45,8 @@ class Urandom(object):
 def page_table(product):
     p = PRODUCTS[product]
     pg = dict((c, 0) for c in CLASSES)
-    pg.update(slock=2, cc=3, u4=4, u5=5, dlock=p["dlock"] or 0)
+    # tend: the last page of the TLV area that holds the (small) NDEF message of the simulated tags
+    pg.update(slock=2, cc=3, u4=4, u5=5, tend=6 if FACTORY_TLV.get(product, b"\x03")[0] == 0x01 else 5, dlock=p["dlock"] or 0)
     if p["fam"] in ("ntag", "ev1"):
         pg.update(cfg0=p["cfg"], cfg1=p["cfg"] + 1, pwd=p["cfg"] + 2, pack=p["cfg"] + 3)
     if p["fam"] == "ulc":
@@ -101,7 +102,7 @@ class World(object):
         if ini["slock"]:
             m[10], m[11] = 0xFF, 0xFF
         self.pg = page_table(self.product)
-        self.cls_of = {v: c for c, v in self.pg.items() if v}
+        self.cls_of = {v: c for c, v in self.pg.items() if v and c != "tend"}
         self.misc0 = self._misc()
         cc0 = self._ccbits(m[15])
         self.init = dict(prod=self.fam, pg=self.pg, key=self._stored_names(), auth0=self.sim.stored["auth0"],
